@@ -34,4 +34,5 @@ func propC11(w *World, r *Report) {
 	r.Rule("readonly: Components, FixComponents, encodeLen, append and Glyphs.Encode do not write memory reachable from the glyph(s) they are called on (component lists are reported and rewritten without touching the source glyph; effect analysis E6)")
 	RunReadOnly(w, r, NewEffects(w), "readonly", []string{"(*glyf.Glyph).Components", "(*glyf.Glyph).FixComponents", "(*glyf.Glyph).encodeLen", "(*glyf.Glyph).append", "(glyf.Glyphs).Encode"}, 0)
 	r.Floor("sizeagree", 1)
+	RunGlyfFlagSiblings(w, r)
 }
